@@ -261,6 +261,16 @@ pub fn ladder_family(ctx: &mut Ctx) {
             }
         }
     }
+    // long programs whose clock advances at one late position: the time limit is honoured from the
+    // very next check on, wherever in the program the time passes
+    for n in [12usize, 20, 40] {
+        for k in 0..n {
+            let mut items: Vec<Tree> = (0..n).map(|_| Tree::ins("NOOP")).collect();
+            items[k] = Tree::ins("TICK5");
+            let prog = Tree::L(items);
+            check_case(ctx, &mut real, "empty", &prog, &bs[0].1, 100, 500, 3);
+        }
+    }
     // growth: each of the nine counted stacks, k items pushed by one step, around every cap
     for (_s, name) in GROW_NAMES.iter().enumerate() {
         for k in 0..=8usize {
